@@ -1097,8 +1097,13 @@ def c09(rep, tier):
     dslots = {}
     # the detector's table: a lambda of the constructor that maps the kind of a pattern token to a grammar symbol,
     # either by pushing it or by returning it; evaluated for every token kind
-    for f in mm.facts.functions:
-        if f['kind'] == 'lambda' and f.get('parent', '').startswith('MacroDetector::MacroDetector') and f.get('params'):
+    slot_fns = [f for f in mm.facts.functions if f['kind'] == 'lambda' and f.get('parent', '').startswith('MacroDetector::MacroDetector') and f.get('params')]
+    # ... or the body of a plain loop over the pattern's tokens (for (const Token &t : md.rule) switch (t.t) ...)
+    for st in walk_stmts(ctor['body']) if ctor.get('body') is not None else []:
+        if st['k'] == 'rangefor' and isinstance(st.get('var'), dict) and 'Token' in (st['var'].get('cty') or '') and st.get('body') is not None:
+            slot_fns.append({'kind': 'loop', 'params': [st['var']], 'body': st['body']})
+    for f in slot_fns:
+        if True:
             tokp = [p2 for p2 in f['params'] if 'Token' in (p2.get('cty') or '')]
             if len(tokp) != 1 or len(f['params']) != 1:
                 continue
